@@ -1,5 +1,6 @@
 (* C03 — Configured decoding limits are enforced exactly.  Statements only. *)
 From Coq Require Import List ZArith.
+Import ListNotations.
 From OV Require Import C01.Codec C01.Builtins C01.Types C01.Model C03.Model C03.Proofs C03.OracleProofs.
 Open Scope Z_scope.
 
@@ -59,8 +60,34 @@ Theorem C03_nested_limit_error : forall t v o d rest, wf_ty t v -> offset_ns o =
 Proof. exact nested_limit_error. Qed.
 Print Assumptions C03_nested_limit_error.
 
-(* The oracle holds on the model, for every case: values, chunks, and the raw length fields in all 20
-   nesting contexts (each context prefix is evaluated symbolically: after it the decoder continues as
+(* The length of a Variant array is bounded by max_array_length for EVERY element type: m is any mask
+   byte with the array bit (element type m mod 64, dimensions bit or not), whatever follows the length
+   and whatever max_string_length / max_byte_string_length are (they do not occur) *)
+Theorem C03_variant_array_over_limit : forall o d m L payload,
+  is_byte m -> Z.testbit m 7 = true -> in_i 4 L -> 0 < L -> max_arr o < L ->
+  Codec.run (dec_variant o d) (m :: enc_i 4 L ++ payload) = Err ELimit.
+Proof. exact varr_over. Qed.
+Print Assumptions C03_variant_array_over_limit.
+
+Theorem C03_variant_array_negative : forall o d m L payload,
+  is_byte m -> Z.testbit m 7 = true -> in_i 4 L -> L < -1 ->
+  Codec.run (dec_variant o d) (m :: enc_i 4 L ++ payload) = Err ENeg.
+Proof. exact varr_neg. Qed.
+Print Assumptions C03_variant_array_negative.
+
+(* ... and a well-formed non-empty Variant array of any element type whose elements and dimension list
+   are themselves within the limits is accepted iff its total length is within max_array_length *)
+Theorem C03_variant_array_accept_iff : forall o d ty vals dims rest,
+  offset_ns o = 0 -> wf_variant (VArray ty vals dims) -> vals <> [] ->
+  chk_list (chk_variant o d) vals = None ->
+  (match dims with Some ds => Z.of_nat (length ds) <= max_arr o | None => True end) ->
+  Codec.run (dec_variant o d) (enc_variant (VArray ty vals dims) ++ rest) =
+  if Z.of_nat (length vals) <=? max_arr o then Ok (norm_variant (VArray ty vals dims), rest) else Err ELimit.
+Proof. exact varr_accept_iff. Qed.
+Print Assumptions C03_variant_array_accept_iff.
+
+(* The oracle holds on the model, for every case: values, chunks, and the raw length fields in all 23
+   nesting contexts, the Variant array length fields of every element type at 5 nestings (each context prefix is evaluated symbolically: after it the decoder continues as
    the string / byte string / array decoder on the remaining bytes, C03.Contexts) *)
 Theorem C03_oracle : forall c, valid c -> known c = 0 -> oracle c (C03.Model.run c) = true.
 Proof. exact C03.OracleProofs.oracle_holds. Qed.
